@@ -302,7 +302,7 @@ func compareFlat(want *fstree.Node, recs []rec, format string, skipRootMeta, sha
 		out = append(out, fstree.Difference{Path: ".", Type: "any", Field: "entry-count",
 			Msg: fmt.Sprintf("tree has %d nodes, output has %d records", len(entries), len(recs))})
 	}
-	for i := 0; i < len(entries) && i < len(recs) && len(out) < 200; i++ {
+	for i := 0; i < len(entries) && i < len(recs); i++ {
 		e, r := entries[i], recs[i]
 		n := e.Node
 		typ := fstree.TypeLabel(n, e.Root)
